@@ -314,4 +314,14 @@ def R5_who_reports_no_path(ctx):
     ctx.check(n >= 3, "sites-found", "expected at least the three known construction sites, found %d" % n, None)
 
 
-RULES = [R1_decision_table, R2_loop_exits, R3_route_or_error, R4_response, R_graph_roles, R5_who_reports_no_path]
+def RA_adjacency_container(ctx):
+    """the adjacency lists are CompactOrderedHashMaps: what a search sees of a vertex is keys()/iter() of that map, what the loader
+    stored is insert().  The container's own rules (every accessor agrees on the slots, growth keeps every entry, dense indices)
+    are therefore part of this property too (shared with C11.R1-R3)."""
+    from props.C11 import R1_slot_table, R2_growth, R3_dense_index
+    R1_slot_table(ctx)
+    R2_growth(ctx)
+    R3_dense_index(ctx)
+
+
+RULES = [R1_decision_table, R2_loop_exits, R3_route_or_error, R4_response, R_graph_roles, R5_who_reports_no_path, RA_adjacency_container]
